@@ -5,7 +5,7 @@ import Driver.Util
 
 mode `array`:  `<len> <ranks> <default> | tok tok …`
   tokens  `s:i:v p:i:v m:i:v x:i:v d:i:v a:i:v o:i:v e:i:v A:i:v O:i:v +:i -:i v:i:k`  updates (in execution order)
-          `C` copy array 0 into array 1   `T:n` select target   `F` dump (index:value per rank)   `V` dump values
+          `C` copy array 0 into array 1   `N:len:dv` array 1 := a fresh array of that length   `T:n` select target   `F` dump (index:value per rank)   `V` dump values
           `Z:len[:fill]` resize   `E:form:fam:c:salt:k` for_all with the emitting callback `harnessCallback`
   answer  dumps joined by ` # `; a dump = ranks joined by `|`; `trap` as soon as an update fails.
 
@@ -68,6 +68,7 @@ def arrayTok (s : AState) (tok : String) : AState :=
   if s.trapped then s else
   match tok.splitOn ":" with
   | ["C"] => { s with a1 := some (copy s.a0) }
+  | ["N", n, dv] => { s with a1 := some (fresh (n.toNat?.getD 0) s.a0.ranks (u64 (dv.toNat?.getD 0))) }
   | ["T", n] => { s with cur := n.toNat?.getD 0 }
   | ["F"] => match s.target with
     | some a => { s with outs := s.outs ++ [dumpArr a] }
